@@ -335,6 +335,7 @@ func c15Keys(t *testing.T) []c15Key {
 var c15OidBasicConstraints = asn1.ObjectIdentifier{2, 5, 29, 19}
 
 type c15CSR struct {
+	sn    string // Subject serialNumber attribute
 	cn    string
 	dns   []string
 	em    []string
@@ -356,7 +357,7 @@ func c15IsASCII(s string) bool {
 }
 
 func (c *c15CSR) build() error {
-	tmpl := &x509.CertificateRequest{Subject: pkix.Name{CommonName: c.cn}, DNSNames: c.dns, EmailAddresses: c.em}
+	tmpl := &x509.CertificateRequest{Subject: pkix.Name{CommonName: c.cn, SerialNumber: c.sn}, DNSNames: c.dns, EmailAddresses: c.em}
 	for _, ip := range c.ips {
 		tmpl.IPAddresses = append(tmpl.IPAddresses, net.ParseIP(ip))
 	}
@@ -394,6 +395,8 @@ func (c *c15CSR) build() error {
 func c15ErrClass(msg string) string {
 	has := func(s string) bool { return strings.Contains(msg, s) }
 	switch {
+	case has("serial_number") && has("not allowed by this role"):
+		return "err:serial"
 	case has("common name") && has("not allowed by this role"):
 		return "err:cn"
 	case has("subject alternate name") && has("not allowed by this role"):
@@ -485,6 +488,9 @@ func c15CIDRField(nets []net.IPNet) string {
 }
 var c15BadIPs = []string{"999.1.1.1", "a.b.c.d", "1.2.3"}
 var c15URIs = []string{"spiffe://ex.com/a", "https://a.ex.com/x", "urn:foo:bar", "spiffe://evil.com/a"}
+var c15SerialPatterns = []string{"dev-*", "ops-42", "*", "*-1"}
+var c15Serials = []string{"dev-7", "prod-1", "ops-42", "ops-43", "x"}
+
 var c15URIPatterns = []string{"spiffe://ex.com/*", "*", "https://*.ex.com/*", "urn:foo:bar", "spiffe://*"}
 
 func c15Subset(rng *vh.Rand, xs []string, max int) []string {
@@ -518,6 +524,7 @@ type c15Case struct {
 	alt           []string
 	ips           []string
 	uris          []string
+	sn            string
 	xcn           bool
 	qkt           string // "-" = absent
 	qkb           string // "-" = absent
@@ -593,6 +600,7 @@ func c15GenCase(rng *vh.Rand, keys []c15Key) *c15Case {
 		}
 	}
 	rd["allowed_uri_sans"] = c15Subset(rng, c15URIPatterns, 2)
+	rd["allowed_serial_numbers"] = c15Subset(rng, c15SerialPatterns, 2)
 	switch k := rng.Intn(20); {
 	case k < 10:
 		rd["key_type"], rd["key_bits"] = "ec", []int{0, 256, 256, 384, 224, 521}[rng.Intn(6)]
@@ -721,6 +729,9 @@ func c15GenCase(rng *vh.Rand, keys []c15Key) *c15Case {
 	if rng.Chance(25) {
 		c.uris = c15Subset(rng, c15URIs, 2)
 	}
+	if rng.Chance(15) {
+		c.sn = rng.Pick(c15Serials) // the serial_number request parameter (Subject serialNumber)
+	}
 	c.xcn = rng.Chance(10)
 	c.qkt, c.qkb = "-", "-"
 	if c.ep == "issue" && (rd["key_type"] == "any" && rng.Chance(85) || rng.Chance(5)) {
@@ -763,6 +774,9 @@ func c15GenCase(rng *vh.Rand, keys []c15Key) *c15Case {
 		cs := &c15CSR{key: k}
 		if !rng.Chance(15) {
 			cs.cn = name()
+		}
+		if rng.Chance(25) {
+			cs.sn = rng.Pick(c15Serials)
 		}
 		for i, n := 0, []int{0, 1, 1, 2}[rng.Intn(4)]; i < n; i++ {
 			a := name()
@@ -837,10 +851,10 @@ func c15CertRecord(m *c15Mount, certPEM string, s0 int64) string {
 	for _, e := range ekus {
 		es = append(es, strconv.Itoa(e))
 	}
-	return vh.Sprintf("ok ca=%s bc=%s nb=%d na=%d cn=%s dns=%s em=%s ip=%s uri=%s kt=%s kb=%d ku=%d eku=%s sig=%s fresh=%s",
+	return vh.Sprintf("ok ca=%s bc=%s nb=%d na=%d cn=%s dns=%s em=%s ip=%s uri=%s kt=%s kb=%d ku=%d eku=%s sig=%s fresh=%s ssn=%s",
 		c15B(c.IsCA), c15B(c.BasicConstraintsValid), c.NotBefore.Unix()-s0, c.NotAfter.Unix()-s0, vh.HexS(c.Subject.CommonName),
 		c15L(c15Sorted(c.DNSNames)), c15L(c15Sorted(c.EmailAddresses)), c15P(c15Sorted(ips)), c15L(c15Sorted(uris)),
-		kt, kb, int(c.KeyUsage), c15P(es), c15B(sig), c15B(fresh))
+		kt, kb, int(c.KeyUsage), c15P(es), c15B(sig), c15B(fresh), vh.HexS(c.Subject.SerialNumber))
 }
 
 // run one case: write the role, set the issuer behaviour, send the request; all inside one wall-clock second
@@ -892,6 +906,9 @@ func c15RunCase(t *testing.T, m *c15Mount, c *c15Case, out *vh.Out) {
 		}
 		if len(c.uris) > 0 {
 			q["uri_sans"] = strings.Join(c.uris, ",")
+		}
+		if c.sn != "" {
+			q["serial_number"] = c.sn
 		}
 		if c.xcn {
 			q["exclude_cn_from_sans"] = true
@@ -972,7 +989,7 @@ func c15RunCase(t *testing.T, m *c15Mount, c *c15Case, out *vh.Out) {
 		nr.wild = role.AllowWildcardCertificates != nil && *role.AllowWildcardCertificates
 		nr.lh, nr.any, nr.enf, nr.tdn, nr.cnv = role.AllowLocalhost, role.AllowAnyName, role.EnforceHostnames, role.AllowTokenDisplayName, role.CNValidations
 		f = append(f, nr.fields()...)
-		f = append(f, "ipok="+c15B(role.AllowIPSANs), "acidr="+c15CIDRField(role.AllowedIPSANsCIDR), "auri="+c15L(role.AllowedURISANs), "kt="+role.KeyType, "kb="+strconv.Itoa(role.KeyBits),
+		f = append(f, "ipok="+c15B(role.AllowIPSANs), "acidr="+c15CIDRField(role.AllowedIPSANsCIDR), "auri="+c15L(role.AllowedURISANs), "asn="+c15L(role.AllowedSerialNumbers), "kt="+role.KeyType, "kb="+strconv.Itoa(role.KeyBits),
 			"ku="+c15P(role.KeyUsage), "eku="+c15P(role.ExtKeyUsage), "sf="+c15B(role.ServerFlag), "cf="+c15B(role.ClientFlag),
 			"csf="+c15B(role.CodeSigningFlag), "epf="+c15B(role.EmailProtectionFlag), "ucn="+c15B(role.UseCSRCommonName),
 			"usans="+c15B(role.UseCSRSANs), "rcn="+c15B(role.RequireCN), "bcnca="+c15B(role.BasicConstraintsValidForNonCA),
@@ -980,7 +997,7 @@ func c15RunCase(t *testing.T, m *c15Mount, c *c15Case, out *vh.Out) {
 			"nbd="+vh.I(int64(role.NotBeforeDuration/time.Second)), "rnb="+c15OptI(c.rnb), "rna="+c15OptI(c.rna),
 			"nbb="+nbb, "nab="+nabField,
 			"mdef="+vh.I(m.mdef), "mmax="+vh.I(m.mmax), "ioff="+vh.I(ioff), "lnab="+c.lnab,
-			"cn="+vh.HexS(c.cn), "alt="+c15L(c.alt), "ip="+c15P(c.ips), "uri="+c15L(c.uris), "xcn="+c15B(c.xcn),
+			"cn="+vh.HexS(c.cn), "alt="+c15L(c.alt), "ip="+c15P(c.ips), "uri="+c15L(c.uris), "sn="+vh.HexS(c.sn), "xcn="+c15B(c.xcn),
 			"qkt="+c.qkt, "qkb="+c.qkb, "rttl="+vh.I(c.rttl), "qnb="+c15OptI(c.qnb), "qna="+c15OptI(c.qna))
 		qku, qeku := c.qku, c.qeku
 		if !c.qkuSet {
@@ -989,7 +1006,7 @@ func c15RunCase(t *testing.T, m *c15Mount, c *c15Case, out *vh.Out) {
 		f = append(f, "qku="+c15P(qku), "qeku="+c15P(qeku), "qbc="+c.qbc)
 		if c.csr != nil {
 			f = append(f, "csr=1", "ccn="+vh.HexS(c.csr.cn), "cdns="+c15L(c.csr.dns), "cem="+c15L(c.csr.em), "cip="+c15P(c.csr.ips),
-				"curi="+c15L(c.csr.uris), "cext="+c15P(c.csr.exts), "ckt="+c.csr.key.kt, "ckb="+strconv.Itoa(c.csr.key.kb))
+				"curi="+c15L(c.csr.uris), "csn="+vh.HexS(c.csr.sn), "cext="+c15P(c.csr.exts), "ckt="+c.csr.key.kt, "ckb="+strconv.Itoa(c.csr.key.kb))
 		} else {
 			f = append(f, "csr=0")
 		}
